@@ -58,9 +58,19 @@ pub trait Interface: ErrorHandler {
     /// the error handler and the rest of the faulty program message (up to and
     /// including its terminator) is discarded; if the terminator has not been
     /// received yet, the remaining input is returned.
-    async fn run<'a>(&mut self, mut input: &'a [u8], response: &mut impl crate::Write) -> &'a [u8] {
-        let mut header = self.root_node();
+    async fn run<'a>(&mut self, input: &'a [u8], response: &mut impl crate::Write) -> &'a [u8] {
+        let header = self.root_node();
+        self.run_from(header, input, response).await.0
+    }
 
+    /// Like [Interface::run], but starts at the given position in the command
+    /// tree and also returns the position that was reached, so that a program
+    /// message that was cut off inside a unit can be resumed where it stopped.
+    #[doc(hidden)]
+    async fn run_from<'a>(
+        &mut self, mut header: &'static tree::Node, mut input: &'a [u8],
+        response: &mut impl crate::Write,
+    ) -> (&'a [u8], &'static tree::Node) {
         while !input.is_empty() {
             let result = parser::parse(self.root_node(), header, input);
 
@@ -70,7 +80,7 @@ pub trait Interface: ErrorHandler {
             if let Err(ParseError::Incomplete) = result {
                 #[cfg(feature = "defmt")]
                 defmt::trace!("Incomplete Input");
-                return input;
+                return (input, header);
             } 
             else if let Err(error) = result {
                 #[cfg(feature = "defmt")]
@@ -84,7 +94,7 @@ pub trait Interface: ErrorHandler {
                         header = self.root_node();
                         continue;
                     }
-                    None => return input,
+                    None => return (input, header),
                 }
             }
 
@@ -113,7 +123,7 @@ pub trait Interface: ErrorHandler {
 
             input = i;
         }
-        &[][..]
+        (&[][..], header)
     }
 
     async fn process<const N: usize, A: Adapter>(&mut self, adapter: &mut A) -> Result<(), A::Error> {
@@ -122,6 +132,8 @@ pub trait Interface: ErrorHandler {
     
         let mut proc_offset = 0;
         let mut read_offset = 0;
+        // Position in the command tree at which an incomplete program message continues.
+        let mut header = self.root_node();
     
         loop {
             let count = adapter.read(&mut cmd_buf[read_offset..]).await?;
@@ -135,7 +147,8 @@ pub trait Interface: ErrorHandler {
                 let terminator_pos = read_offset + position;
                 let data = &cmd_buf[proc_offset..=terminator_pos];
     
-                let remaining = self.run(data, &mut res_buf).await;
+                let (remaining, position) = self.run_from(header, data, &mut res_buf).await;
+                header = if remaining.is_empty() { self.root_node() } else { position };
 
                 if !res_buf.is_empty() {
                     adapter.write(&res_buf).await?;
@@ -168,6 +181,7 @@ pub trait Interface: ErrorHandler {
                 #[cfg(feature = "defmt")]
                 defmt::warn!("SCPI buffer overflow, resetting buffer");
                 read_offset = 0;
+                header = self.root_node();
             }
         }
     }
